@@ -129,7 +129,14 @@ class FlowFields(ImageBatch):
             and data.shape[0] == len(grid)
             and data.shape[1] == grid[0].ndim
             and data.shape[2:] == grid[0].shape
-        ) or (grid is not None and not grid and data.ndim >= 4 and data.shape[0] == 0):
+        ) or (
+            grid is not None
+            and not grid
+            and axes is not None
+            and data.ndim >= 4
+            and data.shape[0] == 0
+            and data.shape[1] == data.ndim - 2
+        ):
             if func in (torch.clone, Tensor.clone):
                 grid = [g.clone() for g in grid]
             if isinstance(data, cls):
@@ -156,7 +163,7 @@ class FlowFields(ImageBatch):
             torch.tensor_split,
             Tensor.tensor_split,
         ):
-            if grid and isinstance(grid[0], Grid):
+            if not grid or isinstance(grid[0], Grid):
                 # Not split along batch dimension, every part contains data of all flow fields
                 grid = [grid] * len(data)
             return tuple(
